@@ -162,6 +162,9 @@ def run(ctx):
     ok, _ = must_pass(icb, [0], w)
     add = [1 for bi, s, op, a, c in binops(icb) if op.startswith('Add')]
     ctx.ob('R11.5', 'IdCounter::increment|advances', ok and bool(w) and bool(add), 'IdCounter::increment advances on every path', icb.loc())
+    AAS = HQ + 'autoalloc::state::AutoAllocState'
+    wq = set(o for o, b, bi, st, k in field_write_sites(prog, AAS, 'queue_id_counter') if not is_test_util(o))
+    ctx.ob('R11.5', 'queue_id_counter|writers', wq <= {AAS + '::new', AAS + '::create_id'}, f'the queue id counter is only initialised (new) and advanced (create_id -> IdCounter::increment); re-seeding it elsewhere can move it backwards (writers: {sorted(x.split("::")[-1] for x in wq)})', None)
     # uid generated only when none was restored
     gen = [(o, b, bi) for o, b, bi in call_sites(prog, 'hyperqueue::server::bootstrap::generate_server_uid') if not is_test_util(o)] if (HQ + 'bootstrap::generate_server_uid') in prog.bodies else []
     ctx.note('uid_generators', [o for o, b, bi in gen])
